@@ -133,10 +133,12 @@ Definition VResp (flen_on_disk thr : N) (r : R resp) : V :=
           | Panic => VT "panic" []
           | Val evs =>
               VT "resp" [VN (status r); VOpt VCr (content_range r); size_v;
-                         VL (chunk_lens evs); VBool (has_err evs); VN offset]
+                         VL (chunk_lens evs); VBool (has_err evs); VN offset;
+                         VOpt VBytes (option_map render_cr (content_range r))]
           end
       | None =>
-          VT "resp" [VN (status r); VOpt VCr (content_range r); size_v; VL []; VBool false; VN 0]
+          VT "resp" [VN (status r); VOpt VCr (content_range r); size_v; VL []; VBool false; VN 0;
+                     VOpt VBytes (option_map render_cr (content_range r))]
       end
   end.
 
